@@ -553,8 +553,9 @@ func Witnesses(t *Spec, depth int) []*VSpec {
 		if t.HasSize {
 			lens[t.Lo], lens[t.Hi], lens[t.Lo-1], lens[t.Hi+1] = true, true, true, true
 		}
-		for n := range lens {
-			if n >= 0 && n <= 7 {
+		// in increasing order: the order of the pool must not depend on Go's map iteration order (a run replays exactly)
+		for n := int64(0); n <= 7; n++ {
+			if lens[n] {
 				es := make([]*VSpec, n)
 				for i := range es {
 					es[i] = slot(i, 0)
